@@ -48,9 +48,27 @@ fn variant_exe(variant: &str) -> PathBuf {
         return std::env::current_exe().expect("current exe");
     }
     let dir = if variant == "min" { "target-min" } else { "target" };
-    Path::new(VERIF_ROOT).join("sim").join(dir).join("release").join("sim")
+    verif_root().join("sim").join(dir).join("release").join("sim")
 }
-const VERIF_ROOT: &str = "/verif";
+/// Root of the verification tree: the directory that holds `sim/`, `evidence/`,
+/// `replays/`, `known_findings.jsonl` - found from the executable's own
+/// location (`<root>/sim/<target dir>/release/sim`), so that a snapshot of
+/// /verif runs entirely inside itself.
+fn verif_root() -> PathBuf {
+    if let Ok(r) = std::env::var("VERIF_ROOT") {
+        if !r.is_empty() {
+            return PathBuf::from(r);
+        }
+    }
+    if let Ok(exe) = std::env::current_exe() {
+        if let Some(root) = exe.ancestors().nth(4) {
+            if root.join("sim").is_dir() {
+                return root.to_path_buf();
+            }
+        }
+    }
+    PathBuf::from("/verif")
+}
 
 fn engine_id(e: &str) -> u64 {
     match e {
@@ -86,8 +104,8 @@ fn plan(prop: &str) -> Option<Plan> {
         },
         "C05" => Plan {
             level: "exploration",
-            engines: vec![("regsim", 160_000, 16_000_000), ("regsim@min", 40_000, 4_000_000)],
-            rule: "non-trivial: at least two deliveries and either an identity that was already present was delivered again or a reference went through an alias wrapper; distinct = distinct scenario hashes among those",
+            engines: vec![("regsim", 160_000, 16_000_000), ("regsim@min", 40_000, 4_000_000), ("tablesim", 60_000, 4_000_000)],
+            rule: "regsim: non-trivial when there were at least two deliveries and either an identity that was already present was delivered again or a reference went through an alias wrapper; tablesim (the run-time builder's side of 'equal values share an id, different values never do'): non-trivial when a duplicate value arrived after unrelated insertions; distinct = distinct scenario hashes among those",
         },
         "C10" => Plan {
             level: "exploration",
@@ -106,8 +124,8 @@ fn plan(prop: &str) -> Option<Plan> {
         },
         "C07" => Plan {
             level: "exploration",
-            engines: vec![("wiresim", 30_000, 2_000_000), ("wiresim@min", 10_000, 600_000)],
-            rule: "a run writes 1-3 registries (random well-formed and ill-formed ones, registry publications, builder outputs, plus survivors of this run's fault cases) back to back through a chunked writer and reads them through four reader kinds; counted: distinct non-empty encodings that went through the fault-free configuration",
+            engines: vec![("wiresim", 80_000, 5_000_000), ("wiresim@min", 20_000, 1_000_000)],
+            rule: "a run writes 1-3 registries (random well-formed and ill-formed ones incl. lean ones, bulk collections and up to 6000 entries, registry publications, builder outputs) back to back through a chunked writer and reads them through four reader kinds; counted: distinct non-empty encodings that went through the fault-free configuration",
         },
         "C14" => Plan {
             level: "fault_enumeration",
@@ -136,7 +154,7 @@ struct Finding {
 }
 
 fn load_findings() -> Vec<Finding> {
-    let p = Path::new(VERIF_ROOT).join("known_findings.jsonl");
+    let p = verif_root().join("known_findings.jsonl");
     let Ok(text) = std::fs::read_to_string(p) else { return vec![] };
     text.lines()
         .filter(|l| !l.trim().is_empty() && !l.trim_start().starts_with('#'))
@@ -187,7 +205,7 @@ fn default_variant() -> String {
 fn replay_dir() -> PathBuf {
     match std::env::var("VERIF_REPLAY_DIR") {
         Ok(d) if !d.is_empty() => PathBuf::from(d),
-        _ => Path::new(VERIF_ROOT).join("replays"),
+        _ => verif_root().join("replays"),
     }
 }
 
@@ -813,7 +831,7 @@ fn watchdog_interval() -> Duration {
 }
 
 fn scratch_dir(name: &str) -> PathBuf {
-    let d = Path::new(VERIF_ROOT).join("sim").join("target").join("scratch").join(name);
+    let d = verif_root().join("sim").join("target").join("scratch").join(name);
     let _ = std::fs::remove_dir_all(&d);
     std::fs::create_dir_all(&d).expect("scratch dir");
     d
@@ -986,8 +1004,10 @@ fn check(prop: &str, tier: &str) -> i32 {
                         }
                     }
                 }
-                Some(2) => {
-                    eprintln!("harness error in worker {} of {}:\n{}", k, engine, stderr);
+                // 2: the worker said so; 101: an uncaught Rust panic, which can only
+                // come from harness code (library calls run under catch_unwind)
+                Some(2) | Some(101) => {
+                    eprintln!("harness error in worker {} of {} (exit {:?}):\n{}", k, engine, code, stderr);
                     harness_error = true;
                 }
                 other => {
@@ -1112,7 +1132,7 @@ fn check(prop: &str, tier: &str) -> i32 {
     });
     let ev_dir = match std::env::var("VERIF_EVIDENCE_DIR") {
         Ok(d) if !d.is_empty() => PathBuf::from(d),
-        _ => Path::new(VERIF_ROOT).join("evidence"),
+        _ => verif_root().join("evidence"),
     };
     std::fs::create_dir_all(&ev_dir).ok();
     let ev_path = ev_dir.join(format!("{}.json", prop));
@@ -1162,8 +1182,8 @@ fn required_probes(prop: &str) -> &'static [&'static str] {
         "C10" => &["checks.retain_after_decode", "reach.retain_on_registry_with_bit_sequence", "reach.retain_partial", "reach.retain_kept_everything", "reach.retain_kept_nothing", "reach.retain_pulled_in_unaccepted_dependency", "reach.retain_kept_a_cycle_and_dropped_something"],
         "C11" => &["fault.unwind_in_type_info.fired", "reach.registration_after_an_unwound_one", "checks.fault_injecting_configuration", "reach.replica_order_differs", "checks.replay", "checks.replica_compared", "fault.reordered_delivery", "fault.duplicate_delivery"],
         "C12" => &["fault.unwind_in_key_clone_or_cmp.fired", "reach.unwound_operation_had_no_effect", "checks.interner_fault_injecting_configuration", "reach.builder_duplicate_after_unrelated_inserts", "reach.builder_self_reference_through_next_type_id", "reach.builder_self_reference_deduplicated_to_older_index", "reach.builder_get_beyond_end", "reach.interner_resolve_out_of_range", "reach.interner_get_unknown", "reach.interner_duplicate_after_unrelated_inserts"],
-        "C07" => &["frame_source.many_types", "frame_source.bulk_collection", "reach.remaining_len_none_path", "reach.io_reader_path", "benign.short_read", "benign.eintr_on_read", "benign.short_write", "checks.survivor_round_trip", "compact_class.frame_len.1byte", "compact_class.frame_len.2byte", "compact_class.frame_len.4byte"],
-        "C14" => &["sweep.frames_swept", "sweep.single_faults.json_structural", "sweep.single_faults.json_text", "sweep.single_faults.targeted_rewrites", "fault.truncate.effective", "fault.flip_bit.effective", "fault.rewrite.vec_len.effective", "fault.rewrite.id.effective", "fault.rewrite.def_tag.effective", "fault.io_error_returned_to_decoder", "reach.decode_survived_a_fault_with_a_new_registry", "reach.decode_consumed_less_than_medium", "fault.json_structural.effective", "fault.json_structural.survived", "reach.io_error_inside_frames"],
+        "C07" => &["checks.frame_decoded_alone", "frame_source.lean_registry", "frame_source.many_types", "frame_source.bulk_collection", "reach.remaining_len_none_path", "reach.io_reader_path", "benign.short_read", "benign.eintr_on_read", "benign.short_write", "compact_class.frame_len.1byte", "compact_class.frame_len.2byte", "compact_class.frame_len.4byte"],
+        "C14" => &["sweep.frames_swept", "sweep.single_faults.json_structural", "sweep.single_faults.json_text", "sweep.single_faults.targeted_rewrites_x3_readers", "fault.truncate.effective", "fault.flip_bit.effective", "fault.rewrite.vec_len.effective", "fault.rewrite.id.effective", "fault.rewrite.def_tag.effective", "fault.io_error_returned_to_decoder", "reach.decode_survived_a_fault_with_a_new_registry", "reach.decode_consumed_less_than_medium", "fault.json_structural.effective", "fault.json_structural.survived", "reach.io_error_inside_frames"],
         _ => &[],
     }
 }
@@ -1203,9 +1223,24 @@ fn loghashes(engine: &str, seed: u64, from: u64, to: u64, step: u64, offset: u64
 
 fn main() {
     let args: Vec<String> = std::env::args().collect();
+    core::install_panic_hook();
+    let code = std::panic::catch_unwind(std::panic::AssertUnwindSafe(|| dispatch(&args)));
+    let code = match code {
+        Ok(c) => c,
+        Err(_) => {
+            // library calls run under catch_unwind inside the engines: what
+            // unwinds to here is a defect of the harness
+            eprintln!("harness panic: {}", core::last_panic());
+            2
+        }
+    };
+    std::process::exit(code);
+}
+
+fn dispatch(args: &[String]) -> i32 {
     let a = |i: usize| args.get(i).map(|s| s.as_str()).unwrap_or("");
     let n = |i: usize| -> u64 { args.get(i).and_then(|x| x.parse().ok()).unwrap_or(0) };
-    let code = match a(1) {
+    match a(1) {
         "check" => check(a(2), if a(3).is_empty() { "quick" } else { a(3) }),
         "worker" => worker(a(2), a(3), n(4), n(5), n(6), n(7).max(1), n(8), Path::new(a(9))),
         "replay" => replay(a(2), args.iter().any(|x| x == "--quiet")),
@@ -1225,6 +1260,5 @@ fn main() {
             eprintln!("usage: sim check <property> <quick|thorough> | replay <file> | dump <engine> <seed> <index> | loghashes ...");
             2
         }
-    };
-    std::process::exit(code);
+    }
 }
